@@ -64,8 +64,21 @@ example : Pos [2, 1, 3, 2] ∧ size [2, 1, 3, 2] = 12 ∧
       [(0, 0), (0, 1), (1, 0), (1, 1), (2, 0), (2, 1), (3, 0), (3, 1), (4, 0), (4, 1), (5, 0), (5, 1)] := by
   refine ⟨by intro d hd; simp at hd; omega, by decide, by decide⟩
 
-/-- TEST (not a theorem about all inputs): `_Indexer.single` agrees with re-encoding the permuted
-digits for every order of the dimension lists below, exhaustively over all indices. -/
+/-- **`_Indexer.single`** (the loop over subsystems from the last one, with its early exit, over the
+`cumprod` table indexed by old position) **sends a tensor index to the index whose digits are the old
+digits read in the new order**, for every list of positive dimensions, every permutation `order` of the
+subsystems and every index in range. -/
+theorem indexer_single_spec (dims order : List Nat) (idx : Nat) (hp : Pos dims)
+    (hperm : order.Perm (List.range dims.length)) (hi : idx < size dims) :
+    single dims (cumprod dims order) idx = singleSpec dims order idx :=
+  single_eq_singleSpec dims order idx hp hperm hi
+
+/-- non-vacuity: a genuine permutation of unequal dimensions, one of them 1 -/
+example : Pos [2, 1, 3] ∧ [2, 0, 1].Perm (List.range [2, 1, 3].length) ∧ 5 < size [2, 1, 3] ∧
+    single [2, 1, 3] (cumprod [2, 1, 3] [2, 0, 1]) 5 = 5 := by
+  refine ⟨by intro d hd; simp at hd; omega, by decide, by decide, by decide⟩
+
+/-- TEST (kept as a regression sample of the theorem above): exhaustive agreement on small dimension lists. -/
 example : ∀ dims ∈ [[2, 3], [3, 2, 2], [2, 1, 3], [1, 1], [2, 2, 3]], ∀ order ∈ [[0, 1, 2], [2, 0, 1], [1, 0, 2], [2, 1, 0], [1, 0], [0, 1]],
     order.length = dims.length →
     (List.range (size dims)).all (fun i => single dims (cumprod dims order) i == singleSpec dims order i) = true := by
